@@ -39,5 +39,10 @@ CLAIMED = {
         "Reference clauses that could not be stated with certainty (13, 21, 63, 68, 76: see evidence assumptions) are excluded by assumption, shrinking the claim.",
         "3 C07",
     ),
+    "C06": (
+        "For each of the 22 countries the real BBAN-level national check runs on a symbolic BBAN ranging over all structure-conforming BBANs and is proved equivalent to an independent transcription of the published rule (success = True, failure = library exception). Through the public API, for inputs whose check digits are the reference digits (plain validation holds by construction) and for inputs with wrong check digits, IBAN(w), IBAN(w, validate_bban=True), validate(validate_bban=True) and the BBAN-level check are executed in one path and shown consistent; countries without an algorithm are shown unaffected.",
+        "IT/SM: quick tier covers the account kind patterns with <= 1 letter, the all-letter pattern and 12 seeded patterns; thorough all 4096. Norway's '00' account branch is excluded by assumption (oracle uncertain). German banks: C07.",
+        "3 C06",
+    ),
 }
 NOT_APPLICABLE = {}
